@@ -56,6 +56,16 @@ Definition blocks_in_file (c : cfg) (nblocks i : Z) : Z :=
   if (i =? num_files c nblocks - 1) && negb (nblocks mod blocks_per_file c =? 0)
   then nblocks mod blocks_per_file c else blocks_per_file c.
 
+(* record(): how many blocks are recorded.  requested = explicit num_blocks (or get_num_blocks(obs_length)),
+   input = blocks available in the input RAW data of a from_data backend.  None = ValueError. *)
+Definition effective_blocks (requested input : option Z) : option Z :=
+  match requested, input with
+  | Some n, Some m => Some (Z.min n m)
+  | Some n, None => Some n
+  | None, Some m => Some m
+  | None, None => None
+  end.
+
 (* ---- stand-alone helpers ---- *)
 Definition get_block_size (nants' tchans_per_block nbits' npols' nchans' fftlength int_factor : Z) : Z :=
   let bps' := (2 * npols' * nbits') / 8 in
